@@ -37,6 +37,19 @@ Check (dg_remove_effect T eqb eqb_spec : forall d g t d' b,
   /\ (forall t', In t' (dg_triples T eqb d' g) <-> In t' (dg_triples T eqb d g) /\ t' <> t)
   /\ (forall g', g' <> g -> dg_triples T eqb d' g' = dg_triples T eqb d g')
   /\ (NoDup d -> NoDup d')).
+(* 4b. bulk mutation through a view touches the viewed graph only *)
+Check (dg_remove_matching_effect T eqb eqb_spec : forall d g sm pm om,
+  let d' := fst (dg_remove_matching T eqb d g sm pm om) in
+  (forall t, In t (dg_triples T eqb d' g) <->
+             In t (dg_triples T eqb d g) /\ triple_matches T sm pm om t = false)
+  /\ (forall g', g' <> g -> dg_triples T eqb d' g' = dg_triples T eqb d g')
+  /\ (NoDup d -> NoDup d')).
+Check (dg_retain_matching_effect T eqb eqb_spec : forall d g sm pm om,
+  let d' := dg_retain_matching T eqb d g sm pm om in
+  (forall t, In t (dg_triples T eqb d' g) <->
+             In t (dg_triples T eqb d g) /\ triple_matches T sm pm om t = true)
+  /\ (forall g', g' <> g -> dg_triples T eqb d' g' = dg_triples T eqb d g')
+  /\ (NoDup d -> NoDup d')).
 (* 5. graph as dataset *)
 Check (gad_content T : forall g, gad_quads T g = map (fun t => mkQ t None) g).
 Check (gad_query_is_filter T : forall g sm pm om gm,
@@ -60,8 +73,8 @@ Check (gad_remove_effect T eqb eqb_spec : forall g q g' r,
 End Pins.
 
 (* 6. every reachable state / whole histories *)
-Check (reachable_nodup : forall ops, NoDup (final [] ops)).
-Check (history_devirt : forall d ops, run d ops = run d (map devirt ops)).
+Check (reachable_nodup : forall pl ops, NoDup (final pl [] ops)).
+Check (history_devirt : forall pl d ops, run pl d ops = run pl d (map devirt ops)).
 
 Print Assumptions union_content.
 Print Assumptions union_query_is_filter.
@@ -74,6 +87,8 @@ Print Assumptions dg_insert_is_direct.
 Print Assumptions dg_remove_is_direct.
 Print Assumptions dg_insert_effect.
 Print Assumptions dg_remove_effect.
+Print Assumptions dg_remove_matching_effect.
+Print Assumptions dg_retain_matching_effect.
 Print Assumptions gad_content.
 Print Assumptions gad_query_is_filter.
 Print Assumptions gad_contains_spec.
